@@ -866,13 +866,22 @@ pub fn leechers(seed: u64) -> Plan {
     let mut seeder = base_peer(0, n);
     seeder.answer.delay_max = *r.pick(&[0u64, 0, 20]);
     p.peers.push(seeder);
-    let many = r.chance(1, 4);
-    let k = if many { r.range(11, 14) } else { r.range(1, 4) } as usize;
+    let many = r.chance(1, 3);
+    // crowd: every leecher is a well-behaved cache prober, so more than ten stay connected and
+    // interested and the rotations have to choke somebody
+    let crowd = r.chance(2, 3);
+    if many && crowd {
+        // slow seeder: the download is still running when the dial-in peers arrive
+        p.peers[0].answer.delay_min = r.range(300, 1500);
+        p.peers[0].answer.delay_max = p.peers[0].answer.delay_min;
+    }
+    let k = if many { r.range(12, 16) } else { r.range(1, 4) } as usize;
     for j in 1..=k {
         let mut peer = base_peer(j, n);
         peer.essential = false;
         peer.has = vec![false; n];
-        peer.unchoke = Unchoke::Never;
+        // unchoke the client so that its have-announcements are not held back
+        peer.unchoke = if r.chance(5, 6) { Unchoke::At(r.range(1, 300)) } else { Unchoke::Never };
         let calm_ = r.chance(1, 2);
         peer.net = gen_net(&mut r, calm_);
         peer.keepalive = Some(50_000);
@@ -884,8 +893,32 @@ pub fn leechers(seed: u64) -> Plan {
         if r.chance(1, 6) {
             peer.bitfield = BitfieldMode::Omit;
         }
-        let t_int = r.range(1, 300);
+        let t_int = if many && crowd { 0 } else { r.range(1, 300) };
         peer.script.push(step(When::At(t_int), Act::Send(Msg::Interested)));
+        if many && crowd {
+            // partial seeds are interesting to the client, so it accepts more than its eleven
+            // outgoing connections and later has more than ten interested peers unchoked
+            peer.has[r.usize_below(n)] = true;
+            if j % 4 == 0 {
+                peer.listed = false;
+                peer.dial_in = vec![r.range(30, 400)];
+            }
+        }
+        if (many && crowd) || r.chance(1, 3) {
+            // cache prober: only valid requests at a steady pace, and the block served last again
+            // whenever the client chokes us
+            peer.unchoke = Unchoke::At(r.range(1, 300));
+            let period = r.range(300, 2500);
+            for q in 0..40u64 {
+                peer.script.push(step(When::At(1_000 + q * period), Act::RequestOwned(1)));
+            }
+            for c in 1..=3u32 {
+                peer.script.push(step(When::AfterRx { kind: "Choke".into(), count: c, plus: r.range(0, 5) }, Act::RepeatLast));
+                peer.script.push(step(When::AfterRx { kind: "Choke".into(), count: c, plus: r.range(50, 2000) }, Act::RepeatLast));
+            }
+            p.peers.push(peer);
+            continue;
+        }
         // valid requests once unchoked
         for u in 1..=3u32 {
             peer.script.push(step(When::AfterRx { kind: "Unchoke".into(), count: u, plus: r.range(1, 100) }, Act::RequestOwned(r.range(1, 4) as u32)));
@@ -903,7 +936,13 @@ pub fn leechers(seed: u64) -> Plan {
         for q in 0..r.range(0, 12) {
             peer.script.push(step(When::At(5_000 + q * r.range(500, 4000)), Act::RequestOwned(1)));
         }
-        // same piece again right after being choked (cached piece)
+        // the block served last, again, right after being choked (cached piece)
+        if r.chance(1, 2) {
+            for c in 1..=2u32 {
+                peer.script.push(step(When::AfterRx { kind: "Choke".into(), count: c, plus: r.range(0, 5) }, Act::RepeatLast));
+                peer.script.push(step(When::AfterRx { kind: "Choke".into(), count: c, plus: r.range(100, 3000) }, Act::RepeatLast));
+            }
+        }
         if r.chance(1, 2) {
             peer.script.push(step(When::AfterRx { kind: "Choke".into(), count: 1, plus: r.range(0, 50) }, Act::RequestOwned(2)));
             let idx = r.below(n as u64) as u32;
@@ -917,7 +956,10 @@ pub fn leechers(seed: u64) -> Plan {
         }
         p.peers.push(peer);
     }
-    let names: Vec<String> = p.peers.iter().filter(|x| x.listed).map(|x| x.name.clone()).collect();
+    // the client dials candidates from the end of the list: the seeder goes last so that it is
+    // always among the first connections
+    let mut names: Vec<String> = p.peers.iter().filter(|x| x.listed).map(|x| x.name.clone()).collect();
+    names.rotate_left(1);
     p.tracker.steps.push((1, TrackerStep::Good { peers: names, malformed: 0, wrong_id_for: vec![] }));
     p.deadline_ms = r.range(35_000, 75_000);
     p.stop_on_done = false;
